@@ -540,17 +540,17 @@ func (c *Client) Kill() {
 			go func() { closed <- client.Close() }()
 			select {
 			case err = <-closed:
+				// The shutdown request was made. A plugin that exits while
+				// answering it can take the reply down with the connection,
+				// so an error here does not mean it is not exiting: it gets
+				// the grace period either way.
+				graceful = true
 			case <-time.After(2 * time.Second):
+				// No answer within the grace period itself: force kill.
 				err = errors.New("timeout waiting for the plugin to acknowledge shutdown")
 			}
 
-			// If there is no error, then we attempt to wait for a graceful
-			// exit. If there was an error, we assume that graceful cleanup
-			// won't happen and just force kill.
-			graceful = err == nil
 			if err != nil {
-				// If there was an error just log it. We're going to force
-				// kill in a moment anyways.
 				c.logger.Warn("error closing client during Kill", "err", err)
 			}
 		} else {
